@@ -2813,7 +2813,7 @@ class KtGaussian1DMaskFunc(KtBaseMaskFunc):
                 num_low_freqs * acceleration - num_cols
             )
 
-            p1 = np.arange(-num_cols // 2, num_cols // 2)
+            p1 = np.arange(-(num_cols // 2), (num_cols + 1) // 2)  # Centered phase-encoding coordinates
             t1 = []
 
             tr = round(num_cols / adjusted_acceleration)  # Number of readout lines per frame (temporal resolution)
@@ -2825,12 +2825,12 @@ class KtGaussian1DMaskFunc(KtBaseMaskFunc):
             prob = 0.1 + self.alpha / (1 - self.alpha + 1e-10) * np.exp(-(p1**2) / (sigma**2))
 
             ind = 0
-            for i in range(-nt // 2, nt // 2):
+            for i in range(-(nt // 2), (nt + 1) // 2):
                 a = np.where(np.array(t1) == i)[0]
                 n_tmp = tr - len(a)
                 prob_tmp = prob.copy()
                 prob_tmp[a] = 0
-                p_tmp = self.rng.choice(np.arange(-num_cols // 2, num_cols // 2), n_tmp, p=prob_tmp / prob_tmp.sum())
+                p_tmp = self.rng.choice(p1, n_tmp, p=prob_tmp / prob_tmp.sum())
                 ti[ind : ind + n_tmp] = i
                 ph[ind : ind + n_tmp] = p_tmp
                 ind += n_tmp
